@@ -344,6 +344,8 @@ def o_c12(meta, ans, ctx):
     r = meta['r']
     bad = [(o, u_) for (o, u_) in meta.get('blocks', []) if (r + o) % u_ != 0]
     e = a['E']
+    if meta.get('bytealigned') and e['status'] != 'ok':
+        return 'byte-aligned: the stream holds only byte-aligned data but is refused (%s) at base residue %d' % (e['status'], r)
     if not bad:
         if e['status'] != 'ok': return 'aligned-ok: every block is aligned at this placement but the result is %s' % e['status']
         if erase_borrows(e['val']) != meta['val']: return 'aligned-value: wrong value at an aligned placement'
@@ -473,6 +475,8 @@ def o_c06(meta, ans, ctx):
 
 
 def o_c09(meta, ans, ctx):
+    if meta.get('kind') == 'dropcheck':
+        return None if ans == 'dropcheck ok' else 'drop-order: the destructor of a structure loaded by %s did not see its data (%s): the backing region was gone before its owner was dropped' % (meta['loader'], ans[:80])
     if meta.get('kind') != 'leak':
         return None
     kv = dict(t.split('=', 1) for t in ans.split(' ')[1:] if '=' in t)
@@ -530,10 +534,15 @@ def o_c04(meta, ans, ctx):
     same = ta.term() == tb.term()
     for part, mode in ((p[1], 'full'), (p[2], 'eps')):
         t = part.split(' ')
+        minor = meta.get('minor', 1)
         if same:
             continue
         if t[1] == 'ok':
-            return 'accepted: bytes written as %s accepted as %s (%s)' % (ta.rust(), tb.rust(), mode)
+            return 'accepted: bytes written as %s accepted as %s (%s%s)' % (ta.rust(), tb.rust(), mode, '' if minor == 1 else ', minor version %d' % minor)
+        if minor > 1:
+            if t[1] != 'err' or t[2] != 'minor':
+                return 'error-kind: a stream of minor version %d gives %s instead of the version error (%s)' % (minor, ' '.join(t[1:3]), mode)
+            continue
         if t[1] != 'err' or t[2] not in ('typehash', 'alignhash'):
             return 'error-kind: bytes written as %s read as %s give %s instead of a hash error (%s)' % (ta.rust(), tb.rust(), ' '.join(t[1:3]), mode)
     return None
